@@ -178,6 +178,22 @@ func (g *gen) block(visibleIn []string, outerLive []string, required []string, b
 			}
 			if g.mistakeIf(len(deadv) > 0, "use-dead") {
 				v := deadv[g.r.Intn(len(deadv))]
+				if g.r.Intn(4) == 0 && !g.lets[v] {
+					// swap of a dead variable with a live one of the same type
+					for _, w := range live {
+						if g.types[w] == g.types[v] && !g.lets[w] {
+							if g.r.Intn(2) == 0 {
+								stmts = append(stmts, Stmt{K: "swap", V: v, S: []string{w}})
+							} else {
+								stmts = append(stmts, Stmt{K: "swap", V: w, S: []string{v}})
+							}
+							break
+						}
+					}
+					if len(stmts) > 0 && stmts[len(stmts)-1].K == "swap" {
+						continue
+					}
+				}
 				stmts = append(stmts, Stmt{K: []string{"destroy", "consume", "use"}[g.r.Intn(3)], V: v})
 				continue
 			}
